@@ -34,6 +34,7 @@ PROP_MODULES = {
     "C17": ["c17"],
     "C13": ["c13", "c11"],
     "C06": ["c06"],
+    "C05": ["c05"],
 }
 
 
